@@ -188,6 +188,15 @@ def _options_case(args):
                 st, dm = design.build("y ~ " + call, df, extra_namespace={"LV": bad})
                 if st == "ok":
                     probs.append(({"clause": "levels_not_covering_the_data_accepted", "call": call.split("(")[0], "why": why}, {"formula": "y ~ " + call, "levels_arg": bad, "data": vals, "storage": storage}))
+    # a reference / omitted level that is not a level of the factor is refused (never replaced by the default)
+    if pos == 1:
+        stranger2 = "'zz'" if kind == "str" else "99999"
+        for call in (f"T(v, {stranger2})", f"C(v, Treatment({stranger2}))", f"S(v, {stranger2})", f"C(v, Sum({stranger2}), levels=LV)", f"T(v, ref={stranger2}, levels=LV)"):
+            # (a full treatment coding has no reference level: only the reduced coding is asked to refuse)
+            for pre in (("", "0 + ") if "S" in call.split("(")[0] or "Sum" in call else ("",)):
+                st, dm = design.build("y ~ " + pre + call, df, extra_namespace={"LV": lv})
+                if st == "ok":
+                    probs.append(({"clause": "reference_or_omitted_level_that_is_no_level_accepted", "call": call.split("(")[0]}, {"formula": "y ~ " + pre + call, "levels_arg": lv, "data": vals, "storage": storage, "labels": list(dm.common.as_dataframe().columns)}))
     for call, red_key, full_key, sp in forms:
         for icpt, key in ((True, red_key), (False, full_key)):
             text = "y ~ " + ("" if icpt else "0 + ") + call
